@@ -640,3 +640,58 @@ Lemma capture_effective st hs raw cap ws e :
   c_live_err c = (if cap && (v =? 0) then [] else chunks true ws) /\
   c_cell_out c = SOrig /\ c_cell_err c = SOrig.
 Proof. cbv zeta. rewrite attr_at_execute_spec. cbn [verb_arg]. apply capture_complete. Qed.
+
+(* ---------- a run that executes nothing, and what is written after a run ----------
+   A run that ends before any action was started (the `run` command ended with a user error while
+   selecting tasks / parsing its options, or nothing was selected) is the empty sequence of
+   events: whatever state it is started in -- the embedding program may have installed streams of
+   its own -- the state is the same afterwards, both cells included. *)
+Lemma empty_run_ops v : run_ops v [] [] = [].
+Proof. reflexivity. Qed.
+
+Lemma empty_vrun_ops st : vrun_ops st (units_of []) [] = [].
+Proof. reflexivity. Qed.
+
+Lemma empty_run_untouched lg b v st s :
+  fold_left (sstep lg b) (run_ops v [] []) s = s /\
+  fold_left (sstep lg b) (vrun_ops st (units_of []) []) s = s.
+Proof. split; reflexivity. Qed.
+
+(* what the program that called the run writes afterwards -- after ANY properly nested sequence,
+   so after any run -- goes to the original streams, completely and in order, and leaves them
+   installed *)
+Lemma after_nested_writes b l ws : nested l ->
+  let s' := srun false b (l ++ wops ws) in
+  s_cell s' = SOrig /\ s_attr s' = s_attr (srun false b l) /\
+  s_orig s' = s_orig (srun false b l) ++ chunks b ws.
+Proof.
+  intros Hn. cbv zeta. unfold srun. rewrite fold_left_app.
+  pose proof (nested_restores b l Hn s_init) as Hc. simpl in Hc.
+  pose proof (writes_frame false b ws (fold_left (sstep false b) l s_init)) as Hf. cbv zeta in Hf.
+  destruct Hf as (H1 & _ & _ & _ & H5).
+  split; [rewrite H1; exact Hc|]. split; [exact H5|].
+  rewrite writes_orig. rewrite Hc. reflexivity.
+Qed.
+
+Lemma after_run_writes b v tasks ws :
+  let s' := srun false b (run_ops v tasks [] ++ wops ws) in
+  s_cell s' = SOrig /\ s_orig s' = s_orig (srun false b (run_ops v tasks [])) ++ chunks b ws.
+Proof.
+  cbv zeta. destruct (after_nested_writes b _ ws (run_ops_nested v tasks [] n_nil)) as (H1 & _ & H3). auto.
+Qed.
+
+Lemma after_vrun_writes b st ts ws :
+  let s' := srun false b (vrun_ops st (units_of ts) [] ++ wops ws) in
+  s_cell s' = SOrig /\ s_orig s' = s_orig (srun false b (vrun_ops st (units_of ts) [])) ++ chunks b ws.
+Proof.
+  cbv zeta. destruct (after_nested_writes b _ ws (vrun_ops_nested st (units_of ts) [] n_nil)) as (H1 & _ & H3). auto.
+Qed.
+
+(* the run that executed nothing: exactly what was written afterwards is on the original stream *)
+Lemma after_empty_run_writes b v ws :
+  let s' := srun false b (run_ops v [] [] ++ wops ws) in
+  s_cell s' = SOrig /\ s_orig s' = chunks b ws /\ (forall i, s_attr s' i = None).
+Proof.
+  cbv zeta. destruct (after_nested_writes b (run_ops v [] []) ws n_nil) as (H1 & H2 & H3).
+  split; [exact H1|]. split; [exact H3|]. intro i. rewrite H2. reflexivity.
+Qed.
